@@ -61,9 +61,9 @@ CHECK_DEADLOCK FALSE
 '''
 
 
-def make_trace(tid, pi, lines, amb=False, overlap=False, poolmissing=False, faulty=False):
+def make_trace(tid, pi, lines, amb=False, overlap=False, poolmissing=False, faulty=False, evfaulty=False):
     return {'id': tid, 'pi': pi, 'amb': bool(amb) or bool(faulty), 'overlap': bool(overlap), 'poolmissing': bool(poolmissing),
-            'faulty': bool(faulty),
+            'faulty': bool(faulty), 'evfaulty': bool(evfaulty),
             'lines': to_json(lines)}
 
 
